@@ -44,7 +44,29 @@ func (t *ftr) fail(n ast.Node, f string, a ...any) {
 	panic(unsupported{fmt.Sprintf("%s (%s): ", t.fn, t.c.pos(n)) + fmt.Sprintf(f, a...)})
 }
 
+// isTimeType: the named type time.Time. In expression sites (exprs.go) a time.Time is an `Int`: nanoseconds on one
+// monotonic clock, the zero Time being 0 (every real reading is > 0), so that Add/Sub/Before/After/IsZero become
+// integer arithmetic. time.Duration is an int64 already.
+func isTimeType(ty types.Type) bool {
+	if ty == nil {
+		return false
+	}
+	n, ok := ty.(*types.Named)
+	return ok && n.Obj().Pkg() != nil && n.Obj().Pkg().Path() == "time" && n.Obj().Name() == "Time"
+}
+
+func isDurationType(ty types.Type) bool {
+	if ty == nil {
+		return false
+	}
+	n, ok := ty.(*types.Named)
+	return ok && n.Obj().Pkg() != nil && n.Obj().Pkg().Path() == "time" && n.Obj().Name() == "Duration"
+}
+
 func (t *ftr) leanType(n ast.Node, ty types.Type) string {
+	if isTimeType(ty) && t.leaves != nil {
+		return "Int"
+	}
 	switch u := ty.Underlying().(type) {
 	case *types.Basic:
 		switch u.Kind() {
@@ -160,6 +182,10 @@ func (t *ftr) convert(n ast.Node, to types.Type, arg ast.Expr) string {
 		return fmt.Sprintf("(%s).toNat", s)
 	case dst == "Nat" && sbv:
 		return fmt.Sprintf("(%s).toNat", s)
+	case dst == "Int" && src == "Rat":
+		return fmt.Sprintf("(Gen.truncR %s)", s)
+	case dst == "Int" && src == "Float":
+		return fmt.Sprintf("(Gen.truncF %s)", s)
 	case dst == "Rat" && src == "Int":
 		return fmt.Sprintf("(%s : Rat)", s)
 	case dst == "Float" && src == "Int":
@@ -211,6 +237,10 @@ func (t *ftr) expr(e ast.Expr) string {
 		if f, ok := t.recvField(x); ok {
 			t.leanType(x, t.typeOf(x)) // basic types only
 			return f
+		}
+	case *ast.CompositeLit:
+		if t.leaves != nil && isTimeType(t.typeOf(x)) && len(x.Elts) == 0 {
+			return "(0 : Int)" // time.Time{}: the zero Time
 		}
 	}
 	t.fail(e, "unsupported expression %T", e)
@@ -319,6 +349,9 @@ func (t *ftr) call(x *ast.CallExpr) string {
 			t.fail(x, "conversion arity")
 		}
 		return t.convert(x, tv.Type, x.Args[0])
+	}
+	if s, ok := t.timeCall(x); ok {
+		return s
 	}
 	var args []string
 	for _, a := range x.Args {
